@@ -11,7 +11,9 @@ CLAIMED = {
         text="Bounded symbolic verification: the real intersection kernels are executed symbolically; exact single-segment lemmas (|v|<=2^25) are "
              "proved, then each whole-kernel obligation (implementation == declarative oracle for ALL coordinates and boxes) is discharged with "
              "multiplication uninterpreted + proved lemma instances. unsat covers every tie/collinearity/vertex-on-ray case inside the bounds; sat is "
-             "replayed on the real build before being reported.",
+             "replayed on the real build before being reported. Float32 coordinate buffers are decided with a float32 rounding mode (float32-typed "
+             "differences rounded to 24 bits, encoded exactly): line [2] monolithically, the other structures by showing that no float32-typed "
+             "operation occurs (then the float64 obligation applies verbatim).",
         note="Bounds: line <=4 (8 thorough) vertices, multiline <=2 parts, polygon shell <=4 (6) edges, one hole, two-part multipolygon; |v|<=2^25; "
              "box of positive area for line/polygon kinds; rings closed; hole bbox inside shell bbox. Trusted: pysym's model of numba semantics "
              "(validated against the jitted code on concrete inputs), z3.",
@@ -77,7 +79,7 @@ def main():
         'checks': checks,
         'not_applicable': [{'property_id': k, 'reason': v} for k, v in sorted(na.items())],
         'notes': 'Exit codes of ./check: 0 all obligations discharged (KNOWN-FINDING lines for listed findings), 1 reproduced violation, 2 inconclusive, 3 harness error. '
-                 'fix: commits in /repo are listed in known_findings.json with status fixed.',
+                 'fix: commits in /repo are listed in known_findings.json with status fixed; status open entries (C17: elements made of infinities) are printed as KNOWN-FINDING lines.',
     }
     json.dump(man, open(os.path.join(ROOT, 'MANIFEST.json'), 'w'), indent=1)
     print('claimed', sorted(claimed), 'not_applicable', sorted(na))
